@@ -69,3 +69,10 @@ Theorem C04_no_note_lost : forall notes, Forall note_clean notes -> notes <> [] 
   List.length (split_char space (bekern_of_ekern (join " " (map note_text notes)))) = List.length notes.
 Proof. exact bekern_keeps_every_note. Qed.
 Print Assumptions C04_no_note_lost.
+
+(* obligation regenerated from the source on every run: the code this property runs through keeps exactly the state the
+   model knows (no new attribute, class-level table, module-level binding or caching decorator), see proofs/State*Proofs.v *)
+From KV Require Import StateGen StateBase StateExportProofs StateTokensProofs.
+Theorem C04_state_as_modelled : state_export = modelled_state_export /\ state_tokens = modelled_state_tokens.
+Proof. exact (conj state_export_as_modelled state_tokens_as_modelled). Qed.
+Print Assumptions C04_state_as_modelled.
